@@ -297,6 +297,11 @@ def _worker_chunk(arg):
     """Pool task: run a chunk of cases on this process's Runner."""
     global _RUNNER
     syntax, video, base, cases = arg
+    import os
+    try:
+        os.chdir(base)          # programs that write to an unmounted current directory stay inside the check's scratch space
+    except OSError:
+        pass
     if _RUNNER is None or (_RUNNER.syntax, _RUNNER.video) != (syntax, video):
         if _RUNNER is not None:
             _RUNNER.close()
